@@ -254,11 +254,12 @@ func (c *converter) syncPartial() {
 	for _, ing := range c.changed.IngressesUpd {
 		name := ing.Namespace + "/" + ing.Name
 		updIngs[name] = true
-		if !delIngs[name] {
-			// an updated ingress might not be tracked yet, e.g. it didn't
-			// configure anything before this update, so it isn't a dirty one
-			ingMap[name] = nil
-		}
+		// An updated ingress might not be tracked yet, e.g. it didn't configure
+		// anything before this update, so it isn't a dirty one. It is read from
+		// the cache even if it was also removed in the same batch: the lists do
+		// not tell which one happened last - an IngressClass event between them
+		// might have made the ingress valid again - and the cache does.
+		ingMap[name] = nil
 	}
 	for _, ing := range c.changed.IngressesAdd {
 		name := ing.Namespace + "/" + ing.Name
